@@ -173,6 +173,17 @@ def interval_from_bits(bits, w, signed):
     return lo, hi
 
 
+class Moved:
+    """Result of std::move(lvalue): the value plus where it came from (the source is nulled when the move is consumed)."""
+
+    def __init__(self, lv, value):
+        self.lv = lv
+        self.value = value
+
+    def __repr__(self):
+        return 'Moved(%r)' % (self.value,)
+
+
 class Obj:
     def __init__(self, cls, fields=None, name=None):
         self.cls = cls
@@ -191,8 +202,21 @@ class Interp:
         self.hooks = hooks
         self.max_iter = max_iter
         self.depth = 0
+        self.moves = []
+        self.null_derefs = []
 
     # -- helpers --------------------------------------------------------------------------------
+    def consume(self, v, env=None):
+        """Complete a move: the source of std::move(x) becomes null."""
+        if isinstance(v, Moved):
+            try:
+                self.store(v.lv, None, env or {'locals': {}, 'this': None})
+            except AnalysisBroken:
+                pass
+            self.moves.append(v.lv)
+            return v.value
+        return v
+
     def ub_event(self, kind, n):
         self.ub.append((kind, pos(n) if n is not None else '?'))
 
@@ -303,6 +327,10 @@ class Interp:
                     ti = tinfo(d, self.idx)
                     if init:
                         v = self.expr(init[-1], env)
+                        if '&' not in qt(d):
+                            v = self.consume(v, env)
+                        elif isinstance(v, Moved):
+                            v = v.value
                         if ti and isinstance(v, IV):
                             v = self.convert(v, ti[0], ti[1], d)
                         env['locals'][d['id']] = v
@@ -455,6 +483,25 @@ class Interp:
             o = self.expr(children(n)[0], env)
             if isinstance(o, Obj):
                 return ('obj', o)
+        if k == 'CXXMemberCallExpr':
+            kind, name, did, obj = callee_of(n)
+            f = self.idx.func_by_id.get(did) if did else None
+            if f is not None and f.body is not None and '&' in f.type.split('(')[0] and obj is not None:
+                # a getter returning a reference to a member: `T &get() { return member; }`
+                st = children(f.body)
+                if len(st) == 1 and st[0]['kind'] == 'ReturnStmt' and children(st[0]):
+                    r = strip_noncast(children(st[0])[0])
+                    while r['kind'] == 'ImplicitCastExpr' and r.get('castKind') in ('NoOp',):
+                        r = strip_noncast(children(r)[0])
+                    if r['kind'] == 'MemberExpr' and children(r) and strip_noncast(children(r)[0])['kind'] == 'CXXThisExpr':
+                        o = self.expr(obj, env)
+                        if isinstance(o, Moved):
+                            o = o.value
+                        if o is None:
+                            self.null_derefs.append(pos(n))
+                            raise Thrown('null pointer dereference')
+                        if isinstance(o, Obj):
+                            return ('field', o, r['name'], n)
         if k in ('CXXOperatorCallExpr', 'CXXMemberCallExpr', 'CallExpr'):
             return ('val', self.call(n, env))
         raise AnalysisBroken('unsupported lvalue %s at %s' % (k, pos(n)))
@@ -590,7 +637,7 @@ class Interp:
         if k == 'BinaryOperator':
             op = n['opcode']
             if op == '=':
-                v = self.expr(ch[1], env)
+                v = self.consume(self.expr(ch[1], env), env)
                 lv = self.lval(ch[0], env)
                 ti = tinfo(ch[0], self.idx)
                 if ti and isinstance(v, IV):
@@ -831,9 +878,31 @@ class Interp:
             r = self.hooks(self, n, kind, name, did, obj, args, env)
             if r is not NotImplemented:
                 return r
+        if kind == 'function' and name in ('move', 'forward') and len(args) == 1:
+            try:
+                lv = self.lval(args[0], env)
+            except AnalysisBroken:
+                return self.expr(args[0], env)
+            if lv[0] == 'val':
+                return lv[1]
+            return Moved(lv, self.load(lv, env))
         if n['kind'] == 'CXXOperatorCallExpr':
             if name in ('operator->', 'operator*'):
-                return self.expr(args[0], env)
+                v = self.expr(args[0], env)
+                if isinstance(v, Moved):
+                    v = v.value
+                if v is None and 'unique_ptr' in (dqt(args[0]) + qt(args[0])):
+                    self.null_derefs.append(pos(n))
+                    raise Thrown('null pointer dereference')
+                return v
+            if name == 'operator=' and len(args) == 2:
+                v = self.consume(self.expr(args[1], env), env)
+                lv = self.lval(args[0], env)
+                self.store(lv, v, env)
+                return v
+            if name == 'operator bool' and args:
+                v = self.expr(args[0], env)
+                return const(1, False, 0 if v is None else 1)
             if name == 'operator[]':
                 c = self.expr(args[0], env)
                 i = self.expr(args[1], env)
@@ -844,6 +913,14 @@ class Interp:
                         self.ub_event('vector-index-out-of-range', n)
                         raise Thrown('out-of-range vector access')
                     return c.items[i.lo]
+                if isinstance(c, tuple) and c and c[0] == 'str':
+                    if not (isinstance(i, IV) and i.concrete()):
+                        raise NeedSplit(None, 'string index not concrete at %s' % pos(n))
+                    if not 0 <= i.lo <= len(c[1]):
+                        self.ub_event('string-index-out-of-range', n)
+                        raise Thrown('out-of-range string access')
+                    ch_ = ord(c[1][i.lo]) if i.lo < len(c[1]) else 0
+                    return const(8, True, ch_)
                 if isinstance(c, dict):
                     key = i[1] if isinstance(i, tuple) else i
                     if key not in c:
@@ -895,7 +972,38 @@ class Interp:
                 return ('num', self.expr(args[0], env))
             raise AnalysisBroken('unmodelled call of %s at %s' % (name, pos(n)))
         if kind == 'method':
+            tobj = (dqt(obj) + ' ' + qt(obj)) if obj is not None else ''
+            if 'std::optional' in tobj and name in ('has_value', 'value', 'emplace', 'reset', 'operator bool'):
+                lv = self.lval(obj, env)
+                cur = self.load(lv, env)
+                if name in ('has_value', 'operator bool'):
+                    return const(1, False, 0 if cur is None else 1)
+                if name == 'value':
+                    if cur is None:
+                        raise Thrown('std::bad_optional_access')
+                    return cur
+                if name == 'emplace':
+                    v = self.expr(args[0], env)
+                    self.store(lv, v, env)
+                    return v
+                self.store(lv, None, env)
+                return None
+            if ('unique_ptr' in tobj or 'shared_ptr' in tobj) and name in ('get', 'release'):
+                v = self.expr(obj, env)
+                if isinstance(v, Moved):
+                    v = v.value
+                if name == 'release':
+                    try:
+                        self.store(self.lval(obj, env), None, env)
+                    except AnalysisBroken:
+                        pass
+                return v
             o = self.expr(obj, env) if obj is not None else None
+            if isinstance(o, Moved):
+                o = o.value
+            if o is None and obj is not None and ('*' in tobj or 'unique_ptr' in tobj):
+                self.null_derefs.append(pos(n))
+                raise Thrown('null pointer dereference')
             if isinstance(o, Vec):
                 if name == 'size':
                     return const(64, False, len(o.items))
@@ -905,8 +1013,8 @@ class Interp:
                     return o.items[0]
                 if name == 'empty':
                     return const(1, False, int(not o.items))
-                if name == 'push_back':
-                    o.items.append(self.expr(args[0], env))
+                if name in ('push_back', 'emplace_back'):
+                    o.items.append(self.consume(self.expr(args[0], env), env))
                     return None
                 raise AnalysisBroken('unmodelled vector operation %s at %s' % (name, pos(n)))
             if isinstance(o, dict):
@@ -917,6 +1025,13 @@ class Interp:
                 raise AnalysisBroken('unmodelled map operation %s at %s' % (name, pos(n)))
             if isinstance(o, tuple) and o and o[0] in ('str', 'cat', 'num', 'fmt') and name in ('c_str', 'str', 'data'):
                 return o
+            if isinstance(o, tuple) and o and o[0] == 'str' and name in ('size', 'length'):
+                return const(64, False, len(o[1]))
+            if isinstance(o, tuple) and o and o[0] == 'str' and name == 'empty':
+                return const(1, False, int(len(o[1]) == 0))
+            if isinstance(o, tuple) and o and o[0] == 'str' and name == 'clear':
+                self.store(self.lval(obj, env), ('str', ''), env)
+                return None
             if isinstance(o, Obj):
                 f = self.resolve_method(o, name, did)
                 if f is None:
@@ -931,12 +1046,19 @@ class Interp:
         """Virtual dispatch by the dynamic class of the abstract object."""
         chain = [o.cls] + self.idx.bases_of(o.cls)
         decl = self.idx.func_by_id.get(did)
+        if decl is not None and not (decl.node.get('virtual') or decl.node.get('pure')):
+            # non-virtual call: statically bound to the named method
+            if decl.body is not None:
+                return decl
+            if getattr(decl, 'defn', None):
+                return decl.defn
         for c in chain:
             rec = self.idx.records.get(c)
             if not rec:
                 continue
             for m in rec.methods:
-                if m.name == name and (decl is None or len(m.params) == len(decl.params)):
+                if m.name == name and (decl is None or (len(m.params) == len(decl.params) and
+                                                        [qt(p) for p in m.params] == [qt(p) for p in decl.params])):
                     if m.body is not None:
                         return m
                     if getattr(m, 'defn', None):
@@ -957,6 +1079,8 @@ class Interp:
         c = cands[0]
         env = {'this': obj, 'locals': {}}
         for prm, v in zip(c.params, argvals):
+            if '&' not in qt(prm):
+                v = self.consume(v)
             ti = tinfo(prm, self.idx)
             if ti and isinstance(v, IV):
                 v = self.convert(v, ti[0], ti[1], prm)
@@ -977,8 +1101,10 @@ class Interp:
             a = ini.get('anyInit') or {}
             if a.get('kind') == 'FieldDecl' and ch:
                 try:
-                    v = self.expr(ch[0], env)
+                    v = self.consume(self.expr(ch[0], env), env)
                 except AnalysisBroken:
+                    v = None
+                if v == ('global', 'nullopt'):
                     v = None
                 fd = self.idx.by_id.get(a.get('id')) or a
                 ti = tinfo(fd, self.idx)
@@ -1000,6 +1126,10 @@ class Interp:
             raise AnalysisBroken('call depth exceeded in ' + f.qname)
         env = {'this': this, 'locals': {}}
         for prm, v in zip(f.params, argvals):
+            if '&' not in qt(prm):
+                v = self.consume(v)
+            elif isinstance(v, Moved) and '&&' not in qt(prm):
+                v = v.value
             ti = tinfo(prm, self.idx)
             if ti and isinstance(v, IV):
                 v = self.convert(v, ti[0], ti[1], prm)
